@@ -77,3 +77,75 @@ Proof.
   cbn [map fst snd] in H. inversion H; subst. cbn [session_wire]. rewrite !submit_via_spec.
   destruct (build c'); [destruct (T.txid_next v); f_equal|..]; apply IH; assumption.
 Qed.
+
+(* ------------------------------------------------------------------ the complete byte stream, with a peer and a transport *)
+Definition spec_fate (fate : tx_fate) (evs : list rx_event) : call_fate :=
+  {| cut_after := match fate with TxCut k => Some k | TxAll => None end; connection_lost := rx_loses_connection evs |}.
+Definition strip_fates (calls : list (path * N * call * tx_fate * list rx_event)) : list (N * call * call_fate) :=
+  map (fun x => let '(p, uid, c, fate, evs) := x in (uid, c, spec_fate fate evs)) calls.
+
+Theorem session_stream_ref f : forall calls k, Forall (fun x => call_wf (snd (fst (fst x)))) calls ->
+  session_stream f (k mod 65536) calls = ref_session_stream (is_tcp f) k (strip_fates calls).
+Proof.
+  induction calls as [|[[[[p uid] c] fate] evs] rest IH]; intros k Hall; [reflexivity|].
+  inversion Hall as [|? ? Hwf Hrest]; subst. cbn [snd fst] in Hwf.
+  cbn [session_stream strip_fates map ref_session_stream]. fold (strip_fates rest).
+  rewrite submit_via_spec. pose proof (build_reaches c Hwf) as Hb.
+  destruct (within_limits_b c) eqn:Hl.
+  - pose proof (submit_within f (k mod 65536) uid c Hwf Hl) as Hs. unfold client_submit in Hs.
+    destruct (build c) as [r|e|]; cbn [obind] in Hs; [|discriminate|contradiction].
+    rewrite txid_next_mod. unfold ClientSpec.txid_spec. rewrite Hs.
+    assert (He : ref_encode f (k mod 65536) uid c = (if is_tcp f then ref_encode_tcp (k mod 65536) uid c else ref_encode_rtu uid c)) by (destruct f; reflexivity).
+    rewrite <- He. unfold spec_fate. cbn [cut_after connection_lost]. rewrite IH by assumption.
+    destruct fate; reflexivity.
+  - assert (Hn : ~ within_limits c) by (unfold within_limits; congruence).
+    destruct (submit_outside f (k mod 65536) uid c Hwf Hn) as (e & He & _). unfold client_submit in He.
+    destruct (build c) as [r|e'|]; cbn [obind] in He; [| |contradiction].
+    + rewrite Hb, txid_next_mod. unfold ClientSpec.txid_spec. rewrite He. apply IH. assumption.
+    + rewrite Hb. apply IH. assumption.
+Qed.
+
+(* what the peer sends while a request waits is irrelevant for what the client writes, except that
+   losing the connection ends the stream: frames with other transaction ids (stale replies,
+   duplicates, foreign frames) can be inserted or removed at will *)
+Lemma rx_skip_irrelevant evs1 evs2 : rx_loses_connection (evs1 ++ RxSkip :: evs2) = rx_loses_connection (evs1 ++ evs2).
+Proof. induction evs1 as [|e r IH]; [reflexivity|]. destruct e; cbn [app rx_loses_connection]; try reflexivity. exact IH. Qed.
+
+Theorem session_stream_peer_independent f v pre p uid c fate evs1 evs2 post :
+  session_stream f v (pre ++ (p, uid, c, fate, evs1 ++ RxSkip :: evs2) :: post) =
+  session_stream f v (pre ++ (p, uid, c, fate, evs1 ++ evs2) :: post).
+Proof.
+  revert v. induction pre as [|[[[[p' uid'] c'] fate'] evs'] pre IH]; intros v; cbn [app session_stream].
+  - rewrite rx_skip_irrelevant. reflexivity.
+  - destruct (submit_via p' c') as [r'|rj]; [|apply IH]. destruct (T.txid_next v) as [v' tx].
+    destruct (client_encode f tx uid' r'); [|apply IH|apply IH]. rewrite IH. reflexivity.
+Qed.
+
+(* without transport stalls and without losing the connection the stream is the concatenation of
+   the frames of session_wire: one serialisation per accepted call, nothing else *)
+Theorem session_stream_concat f : forall calls v,
+  Forall (fun x => snd (fst x) = TxAll /\ rx_loses_connection (snd x) = false) calls ->
+  session_stream f v calls = concat (session_wire f v (map (fun x => fst (fst x)) calls)).
+Proof.
+  induction calls as [|[[[[p uid] c] fate] evs] rest IH]; intros v Hall; [reflexivity|].
+  inversion Hall as [|? ? [Hf He] Hrest]; subst. cbn [fst snd] in Hf, He. subst fate.
+  cbn [session_stream session_wire map fst snd]. destruct (submit_via p c) as [r'|rj]; [|apply IH; assumption].
+  destruct (T.txid_next v) as [v' tx]. unfold transmit. destruct (client_encode f tx uid r'); cbn [snd app concat].
+  - rewrite He, IH by assumption. reflexivity.
+  - apply IH; assumption.
+  - apply IH; assumption.
+Qed.
+
+(* a partial frame is the last thing on the connection: whatever calls follow, nothing more is written
+   (the length of a frame does not depend on its transaction id) *)
+Theorem ref_stream_cut_is_last (tcp : bool) (uid : N) (c : call) (j : nat) : forall pre k post,
+  within_limits_b c = true ->
+  (forall t, (j < length (if tcp then ref_encode_tcp t uid c else ref_encode_rtu uid c))%nat) ->
+  ref_session_stream tcp k (pre ++ (uid, c, FateCut j) :: post) = ref_session_stream tcp k (pre ++ [(uid, c, FateCut j)]).
+Proof.
+  induction pre as [|[[u' c'] fate'] pre IH]; intros k post Hl Hj.
+  - cbn [app ref_session_stream]. rewrite Hl. cbn [cut_after FateCut].
+    destruct (Nat.ltb_spec j (length (if tcp then ref_encode_tcp (k mod 65536) uid c else ref_encode_rtu uid c))); [reflexivity|].
+    specialize (Hj (k mod 65536)). lia.
+  - cbn [app ref_session_stream]. rewrite !(IH _ post) by assumption. reflexivity.
+Qed.
